@@ -15,6 +15,15 @@ PLACEMENTS_THOROUGH = PLACEMENTS_QUICK + [(0.5, (20000, -20000, 12345)), (2.0, (
 
 def execute(c):
     from swcgeom.core import Tree, redirect_tree, cat_tree
+    if c["op"] == "reverse_path":
+        from swcgeom.transforms import PathReverser
+        t = lib.mk_tree(c["P"], c["attr"])
+        snap = lib.snapshot(t)
+        path = [p for p in t.get_paths() if int(p.origin_id()[-1]) == c["i"]][0]
+        tf = PathReverser()
+        r = lib.outlives(tf, path, c, [p for p in lib.other_trees()[0].get_paths()][:1])
+        mp, rpid, rattr = lib.project_tagged(r)
+        return {"map": mp, "rpid": rpid, "rattr": rattr, "srcchanged": lib.changed(t, snap)}
     if c["op"] == "redirect":
         def warm(tt):
             redirect_tree(tt, len(tt) - 1, sort=True); redirect_tree(tt, 0, sort=False); tt.get_branches()
@@ -72,7 +81,7 @@ def keyfn(c, o, why):
 
 
 def nontrivial(c):
-    if c["op"] == "redirect":
+    if c["op"] in ("redirect", "reverse_path"):
         return len(c["P"]) >= 3 and c["i"] != 0
     return len(c["P1"]) + len(c["P2"]) >= 4 and c["j"] != 0
 
